@@ -133,6 +133,7 @@ Section Ops.
 Variable pol : policy.
 Variable sweep_on_check : bool.   (* gen: check_access_with_permission / has_access / get_permission sweep first *)
 Variable max_deleg_depth : N.
+Variable sealed_guard : bool.     (* gen: cleanup_expired_grants does nothing while the vault is sealed *)
 
 Definition pre_check (s : st) (now : N) : st := if sweep_on_check then sweep s now else s.
 
@@ -274,33 +275,50 @@ Fixpoint is_ancestor (ds : list deleg) (fuel : nat) (anc x : N) : bool :=
 Definition deleg_depth (ds : list deleg) (x : N) : N :=
   match find (fun d => N.eqb (d_child d) x) ds with Some d => d_depth d | None => 0 end.
 
-(* Vault::delegate of one secret *)
-Definition op_delegate (s : st) (now parent child sec lvl : N) (ttl : option N) : st * N :=
-  let '(s1, pl) := get_permission s now parent sec in
-  match pl with
-  | None => (s1, R_FUEL)
-  | Some 0 => (log s1 (w_err parent sec), R_DENIED)
-  | Some l =>
-      if negb (N.leb lvl l) then (log s1 (w_err parent sec), R_INSUFFICIENT)
-      else if N.eqb parent child then (s1, R_GRAPH)
-      else if is_ancestor (delegs s1) (S (length (delegs s1))) child parent then (s1, R_GRAPH)
-      else if N.ltb max_deleg_depth (deleg_depth (delegs s1) parent + 1) then (s1, R_GRAPH)
-      else
-        let ds := filter (fun d => negb (N.eqb (d_parent d) parent && N.eqb (d_child d) child)) (delegs s1)
-                  ++ [Dg parent child (deleg_depth (delegs s1) parent + 1)] in
-        let s2 := St (secrets s1) (members s1) (grants s1 ++ [Gr child sec lvl (Some lvl) true])
-                     (match ttl with Some d => ttls s1 ++ [Tt child sec (now + d)] | None => ttls s1 end)
-                     ds (wlog s1) in
-        (* the delegation record keeps the clear secret name (F-C14-name) *)
-        (log s2 ([(4, Cat (Plain (SEntity parent)) (Cat (Plain (SEntity child)) (name sec)))]
-                 ++ (match ttl with Some _ => [(3, Cat (Plain (SEntity child)) (name sec))] | None => [] end)
-                 ++ w_edge child sec ++ w_audit parent sec), R_OK)
+(* Vault::delegate: the parent must hold at least `lvl` on EVERY listed secret (checked in order) *)
+Fixpoint deleg_check (s : st) (now parent : N) (secs : list N) (lvl : N) : st * N :=
+  match secs with
+  | [] => (s, R_OK)
+  | x :: r =>
+      let '(s1, pl) := get_permission s now parent x in
+      match pl with
+      | None => (s1, R_FUEL)
+      | Some 0 => (log s1 (w_err parent x), R_DENIED)
+      | Some l => if N.leb lvl l then deleg_check s1 now parent r lvl
+                  else (log s1 (w_err parent x), R_INSUFFICIENT)
+      end
   end.
+Definition op_delegate (s : st) (now parent child : N) (secs : list N) (lvl : N) (ttl : option N) : st * N :=
+  let '(s1, r) := deleg_check s now parent secs lvl in
+  if negb (N.eqb r R_OK) then (s1, r)
+  else if N.eqb parent child then (s1, R_GRAPH)
+  else if is_ancestor (delegs s1) (S (length (delegs s1))) child parent then (s1, R_GRAPH)
+  else if N.ltb max_deleg_depth (deleg_depth (delegs s1) parent + 1) then (s1, R_GRAPH)
+  else
+    let ds := filter (fun d => negb (N.eqb (d_parent d) parent && N.eqb (d_child d) child)) (delegs s1)
+              ++ [Dg parent child (deleg_depth (delegs s1) parent + 1)] in
+    let s2 := St (secrets s1) (members s1) (grants s1 ++ map (fun x => Gr child x lvl (Some lvl) true) secs)
+                 (match ttl with Some d => ttls s1 ++ map (fun x => Tt child x (now + d)) secs | None => ttls s1 end)
+                 ds (wlog s1) in
+    (* the delegation record keeps the clear secret names (F-C14-name) *)
+    (log s2 (flat_map (fun x => [(4, Cat (Plain (SEntity parent)) (Cat (Plain (SEntity child)) (name x)))]
+                                 ++ (match ttl with Some _ => [(3, Cat (Plain (SEntity child)) (name x))] | None => [] end)
+                                 ++ w_edge child x ++ w_audit parent x) secs), R_OK).
+
+(* seal(); the clock advances by d; get_permission(req, sec) while sealed; unseal().  While sealed the keyed
+   name hash is computed with zeroed keys, so no stored node is found: a non-root requester gets nothing.
+   With `sealed_guard` the sweep does nothing while sealed; without it the sweep pops the expired tracker
+   entries but finds none of their edges -- the entries are lost and the edges stay *)
+Definition op_sealed (s : st) (now d req : N) : st * option N :=
+  let s' := if sealed_guard || negb sweep_on_check || N.eqb req root then s
+            else St (secrets s) (members s) (grants s) (filter (fun t => negb (expired (now + d) t)) (ttls s)) (delegs s) (wlog s) in
+  (s', if N.eqb req root then Some 3 else Some 0).
 
 Inductive op :=
 | OSet (req sec v : N) | OGet (req sec : N) | OList (req : N) | OListExact (req sec : N) | ORotate (req sec v : N) | ODelete (req sec : N)
 | OGrant (req e sec lvl : N) (ttl : option N) | ORevoke (req e sec : N)
-| ODelegate (parent child sec lvl : N) (ttl : option N)
+| ODelegate (parent child : N) (secs : list N) (lvl : N) (ttl : option N)
+| OSealed (d req sec : N)
 | OPerm (req sec : N)
 | OMember (a b : N) | OUnmember (a b : N)
 | OTick (d : N).      (* time passes *)
@@ -320,6 +338,7 @@ Definition step (s : st) (now : N) (o : op) : st * ans :=
   | ORevoke r e x => let '(s', c) := op_revoke s now r e x in (s', ACode c)
   | ODelegate p c x l t => let '(s', r) := op_delegate s now p c x l t in (s', ACode r)
   | OPerm r x => let '(s', l) := get_permission s now r x in (s', ALevel l)
+  | OSealed d r _ => let '(s', l) := op_sealed s now d r in (s', ALevel l)
   | OMember a b => (St (secrets s) (members s ++ [(a, b)]) (grants s) (ttls s) (delegs s) (wlog s), ACode 0)
   | OUnmember a b => (St (secrets s) (filter (fun e => negb (N.eqb (fst e) a && N.eqb (snd e) b)) (members s))
                          (grants s) (ttls s) (delegs s) (wlog s), ACode 0)
@@ -327,7 +346,7 @@ Definition step (s : st) (now : N) (o : op) : st * ans :=
   end.
 
 (* the clock: every call takes one unit, OTick d takes d more *)
-Definition advance (now : N) (o : op) : N := match o with OTick d => now + 1 + d | _ => now + 1 end.
+Definition advance (now : N) (o : op) : N := match o with OTick d => now + 1 + d | OSealed d _ _ => now + 1 + d | _ => now + 1 end.
 
 Fixpoint run (s : st) (now : N) (ops : list op) : st * list ans :=
   match ops with
